@@ -416,3 +416,128 @@ Definition Limb_inverses_stmt : Prop := forall thr k (p a : L.ru k), wf k p -> R
   (wf k (l_mgi_inv thr k p a) /\ val k (l_mgi_inv thr k p a) < P /\ (val k (l_mgi_inv thr k p a) * val k a) mod P = 1).
 Lemma Limb_inverses : Limb_inverses_stmt.
 Proof. intros thr k p a Wp HM Wa La Hg p1 P V. subst p1 P V. apply (limb_inverses thr k p Wp HM a Wa La Hg). Qed.
+
+(* ------------------------------------------------------------------ phase 3: the composite operations over limbs
+   rmint addmul / div and the fused operations, sub and div of Montgomery<ruint<K>> are compositions of functions refined above;
+   they compute the integer-level functions of Model.v (hence every theorem of ProofsRec.v / ProofsAll.v about those applies). *)
+Section Composite.
+  Variable thr : nat.
+  Variable k : nat.
+  Variable p : L.ru k.
+  Hypothesis Wp : wf k p.
+  Hypothesis HM : RecMod k (val k p).
+  Local Notation B := (Bk k).
+  Local Notation P := (val k p).
+  Local Notation M := (mga_init_module k P).
+  Local Notation R := (mr_mk k P).
+  Local Notation p1 := (l_p1 thr k p).
+
+  Let W1 : wf k p1. Proof. apply (l_p1_refines thr k p Wp HM). Qed.
+  Let E1 : val k p1 = g_p1 M. Proof. apply (l_p1_refines thr k p Wp HM). Qed.
+  Let Hp : 1 < P < B. Proof. apply HM. Qed.
+  Let Hnz : P <> 0. Proof. lia. Qed.
+
+  Lemma c_mul a b : wf k a -> wf k b ->
+    wf k (l_mga_mul thr k p p1 a b) /\ val k (l_mga_mul thr k p p1 a b) = mga_mul k M (val k a) (val k b) /\
+    val k (l_mga_mul thr k p p1 a b) = mr_mul k R (val k a) (val k b).
+  Proof.
+    intros Wa Wb. destruct (l_mga_mul_refines thr k p p1 a b Wp W1 Wa Wb) as [W E]. split; [exact W|]. rewrite E, E1. split; reflexivity.
+  Qed.
+  Lemma c_add a b : wf k a -> wf k b -> wf k (l_add k p a b) /\ val k (l_add k p a b) = rm_add k P (val k a) (val k b).
+  Proof. intros Wa Wb. apply (l_add_refines k p a b Wp Wa Wb). Qed.
+  Lemma c_mr_sub a b : wf k a -> wf k b -> wf k (l_mr_sub k p a b) /\ val k (l_mr_sub k p a b) = mr_sub k R (val k a) (val k b).
+  Proof.
+    intros Wa Wb. unfold l_mr_sub, mr_sub. cbv zeta. cbn [g_p mr_mk]. rewrite (l_lt_spec k a b Wa Wb).
+    destruct (l_sub_spec k a b Wa Wb) as [Ws Es]. destruct (val k a <? val k b).
+    - destruct (l_add_spec k _ p Ws Wp) as (W2 & E2 & _). split; [exact W2|]. rewrite E2, Es. reflexivity.
+    - split; [exact Ws | exact Es].
+  Qed.
+
+  Lemma c_mga_inv c : wf k c -> val k c < P -> Z.gcd (val k c) P = 1 ->
+    wf k (l_mga_inv thr k p p1 c) /\ val k (l_mga_inv thr k p p1 c) = mga_inv k M (val k c).
+  Proof.
+    intros Wc Lc Hg. pose proof (val_rng k c Wc) as Rc. assert (Cc : canon P (val k c)) by (unfold canon; lia).
+    unfold l_mga_inv. destruct (l_reduction1_refines thr k p p1 c Wp W1 Wc) as [Wr Er]. rewrite E1 in Er.
+    change (reduction k P (g_p1 M) (val k c)) with (mga_get_ruint k M (val k c)) in Er.
+    pose proof (V_can k P HM _ Cc) as Cv. unfold canon in Cv.
+    destruct (p1_spec k P HM) as [_ Hp1].
+    assert (Gv : Z.gcd (mga_get_ruint k M (val k c)) P = 1).
+    { rewrite (mga_V_fm k P HM _ Cc). apply gcd_fm; [lia | apply (BBi k P _ Hp1) | exact Hg]. }
+    destruct (l_inv_mod_refines thr k p Wp HM _ Wr ltac:(rewrite Er; lia) ltac:(rewrite Er; exact Gv)) as [Wi Ei].
+    destruct (l_to_mg_refines thr k p _ Wp Wi Hnz) as [Wt Et]. split; [exact Wt|]. rewrite Et, Ei, Er. reflexivity.
+  Qed.
+  Lemma c_mr_inv c : wf k c -> val k c < P -> Z.gcd (val k c) P = 1 ->
+    wf k (l_mr_inv thr k p p1 c) /\ val k (l_mr_inv thr k p p1 c) = mr_inv k R (val k c).
+  Proof.
+    intros Wc Lc Hg. unfold l_mr_inv.
+    destruct (l_inv_mod_refines thr k p Wp HM c Wc Lc Hg) as [Wi Ei].
+    destruct (l_constants thr k p Wp HM) as (_ & _ & _ & E3 & _).
+    assert (W3 : wf k (l_r3 thr k p)).
+    { unfold l_r3. destruct (l_r_refines thr k p Wp HM) as [Wr _].
+      assert (W2 : wf k (l_r2 thr k p)).
+      { unfold l_r2. destruct (P6.C06_lmul_exact thr k _ _ Wr Wr) as (Wa & Wb & _).
+        apply (P6.C06_mod_double_size_exact thr k _ p (conj Wa Wb) Wp Hnz). }
+      destruct (P6.C06_lmul_exact thr k _ _ W2 Wr) as (Wa & Wb & _).
+      apply (P6.C06_mod_double_size_exact thr k _ p (conj Wa Wb) Wp Hnz). }
+    destruct (c_mul _ _ Wi W3) as (W & _ & E). split; [exact W|]. rewrite E, Ei, E3. reflexivity.
+  Qed.
+
+  Theorem limb_composite a b c : wf k a -> wf k b -> wf k c ->
+    val k (l_mga_addmul thr k p p1 c a b) = mga_addmul k M (val k c) (val k a) (val k b) /\
+    val k (l_mr_sub k p a b) = mr_sub k R (val k a) (val k b) /\
+    val k (l_mr_axpy thr k p p1 a b c) = mr_axpy k R (val k a) (val k b) (val k c) /\
+    val k (l_mr_axpyin thr k p p1 c a b) = mr_axpyin k R (val k c) (val k a) (val k b) /\
+    val k (l_mr_maxpy thr k p p1 a b c) = mr_maxpy k R (val k a) (val k b) (val k c) /\
+    val k (l_mr_maxpyin thr k p p1 c a b) = mr_maxpyin k R (val k c) (val k a) (val k b) /\
+    val k (l_mr_axmy thr k p p1 a b c) = mr_axmy k R (val k a) (val k b) (val k c) /\
+    val k (l_mr_axmyin thr k p p1 c a b) = mr_axmyin k R (val k c) (val k a) (val k b) /\
+    (val k b < P -> Z.gcd (val k b) P = 1 ->
+       val k (l_mga_div thr k p p1 a b) = mga_div k M (val k a) (val k b) /\
+       val k (l_mgi_div thr k p a b) = mgi_div k P (val k a) (val k b) /\
+       val k (l_mr_div thr k p p1 a b) = mr_div k R (val k a) (val k b) /\
+       val k (l_mr_divin thr k p p1 a b) = mr_divin k R (val k a) (val k b)).
+  Proof.
+    intros Wa Wb Wc. destruct (c_mul a b Wa Wb) as (Wm & Em & Emr).
+    split.
+    { unfold l_mga_addmul, mga_addmul. destruct (c_add c _ Wc Wm) as [_ E]. rewrite E, Em. reflexivity. }
+    split; [apply (c_mr_sub a b Wa Wb)|].
+    split. { unfold l_mr_axpy, mr_axpy, mr_add. destruct (c_add _ c Wm Wc) as [_ E]. rewrite E, Emr. reflexivity. }
+    split. { unfold l_mr_axpyin, mr_axpyin, mr_add. destruct (c_add c _ Wc Wm) as [_ E]. rewrite E, Emr. reflexivity. }
+    split. { unfold l_mr_maxpy, mr_maxpy. destruct (c_mr_sub c _ Wc Wm) as [_ E]. rewrite E, Emr. reflexivity. }
+    split. { unfold l_mr_maxpyin, mr_maxpyin, mr_subin. destruct (l_subin_refines k p c _ Wp Wc Wm) as [_ E]. rewrite E, Emr. reflexivity. }
+    split. { unfold l_mr_axmy, mr_axmy. destruct (c_mr_sub _ c Wm Wc) as [_ E]. rewrite E, Emr. reflexivity. }
+    split. { unfold l_mr_axmyin, mr_axmyin. destruct (c_mr_sub _ c Wm Wc) as [_ E]. rewrite E, Emr. reflexivity. }
+    intros Lb Hg.
+    destruct (c_mga_inv b Wb Lb Hg) as [Wi Ei]. destruct (c_mr_inv b Wb Lb Hg) as [Wri Eri].
+    destruct (l_inv_mod_refines thr k p Wp HM b Wb Lb Hg) as [Wii Eii].
+    split.
+    { unfold l_mga_div, mga_div. cbv zeta. rewrite (l_eqb_zero_spec k _ Wi). rewrite Ei.
+      destruct (mga_inv k M (val k b) =? 0); [apply B6.val_zero|]. destruct (c_mul a _ Wa Wi) as (_ & E & _). rewrite E, Ei. reflexivity. }
+    split.
+    { unfold l_mgi_div, mgi_div, l_mgi_inv, mgi_inv. cbv zeta. rewrite (l_eqb_zero_spec k _ Wii). rewrite Eii.
+      destruct (inv_mod B (val k b) P =? 0); [apply B6.val_zero|].
+      destruct (l_mgi_mul_refines thr k p a _ Wp Wa Wii Hnz) as [_ E]. rewrite E, Eii. reflexivity. }
+    split.
+    { unfold l_mr_div, mr_div. destruct (c_mul a _ Wa Wri) as (_ & _ & E). rewrite E, Eri. reflexivity. }
+    unfold l_mr_divin, mr_divin. destruct (c_mul a _ Wa Wri) as (_ & _ & E). rewrite E, Eri. reflexivity.
+  Qed.
+End Composite.
+
+Definition Limb_composite_stmt : Prop := forall thr k (p a b c : L.ru k), wf k p -> RecMod k (val k p) ->
+  wf k a -> wf k b -> wf k c ->
+  let p1 := l_p1 thr k p in let P := val k p in let M := mga_init_module k P in let R := mr_mk k P in
+  val k (l_mga_addmul thr k p p1 c a b) = mga_addmul k M (val k c) (val k a) (val k b) /\
+  val k (l_mr_sub k p a b) = mr_sub k R (val k a) (val k b) /\
+  val k (l_mr_axpy thr k p p1 a b c) = mr_axpy k R (val k a) (val k b) (val k c) /\
+  val k (l_mr_axpyin thr k p p1 c a b) = mr_axpyin k R (val k c) (val k a) (val k b) /\
+  val k (l_mr_maxpy thr k p p1 a b c) = mr_maxpy k R (val k a) (val k b) (val k c) /\
+  val k (l_mr_maxpyin thr k p p1 c a b) = mr_maxpyin k R (val k c) (val k a) (val k b) /\
+  val k (l_mr_axmy thr k p p1 a b c) = mr_axmy k R (val k a) (val k b) (val k c) /\
+  val k (l_mr_axmyin thr k p p1 c a b) = mr_axmyin k R (val k c) (val k a) (val k b) /\
+  (val k b < P -> Z.gcd (val k b) P = 1 ->
+     val k (l_mga_div thr k p p1 a b) = mga_div k M (val k a) (val k b) /\
+     val k (l_mgi_div thr k p a b) = mgi_div k P (val k a) (val k b) /\
+     val k (l_mr_div thr k p p1 a b) = mr_div k R (val k a) (val k b) /\
+     val k (l_mr_divin thr k p p1 a b) = mr_divin k R (val k a) (val k b)).
+Lemma Limb_composite : Limb_composite_stmt.
+Proof. intros thr k p a b c Wp HM Wa Wb Wc p1 P M R. subst p1 P M R. apply (limb_composite thr k p Wp HM a b c Wa Wb Wc). Qed.
